@@ -8,6 +8,26 @@ CHECKS = {
     text="TLC enumerates every cell of the real 12/5/4 hierarchy to depth 5 (quick) / 8 (thorough) plus digit-pattern continuations to resolution 30, checks the layout design (round trip, validity, marker position) as invariants, and the same states are replayed on the real code; the real ids, resolutions, decodings and counts are judged clause by clause by the specification's own operators.",
     note="Trusted: TLC, the JSON bridge, the driver that calls the real functions. Table parameters are read from the code. Deeper than the depth bound only pattern/random positions are covered.",
     ref="DESIGN.md section 5 C05"),
+ "C06": dict(
+    technique="TLA+ session model MC_Tree (one hierarchy request per behaviour) model-checked by TLC against the abstract cell tree; TLC-generated requests replayed on cell_to_children/cell_to_parent; answers judged by TLC trace spec Trace_Tree",
+    text="TLC enumerates every cell to depth 3 (quick) / 5 (thorough) and digit-pattern cells to resolution 29, and for each every children/parent/compose request in the property's quantifier (including omitted arguments and out-of-order requests), checks the tree laws on the abstract tree, and the requests are replayed on the real API in shuffled order with handed-out lists scribbled on; the answers are judged against Desc/Anc of the tree, norep, count, contiguity and parent-of-child clauses.",
+    note="Trusted: TLC, JSON bridge, driver. Ids are read through A5Layout (bound to the code by C05); a flagged event is re-judged with the real deserialize before it counts.",
+    ref="DESIGN.md section 5 C06"),
+ "C10": dict(
+    technique="TLA+ session model MC_Tree (Build/AskList: working lists and uncompact targets) model-checked by TLC; lists replayed on uncompact after a client prelude; block-wise judgement by TLC trace spec Trace_Tree",
+    text="TLC enumerates working lists of up to 3 cells built from a cell and its relatives (with multiplicity, the world cell, ancestors together with descendants) and every target around the finest member, including too-coarse targets; random deep lists to resolution 29 are added; each is replayed on uncompact and judged block by block (block i as a set = Desc(cell i, t), sizes, level, parent-of-output, argument unchanged, raises when a member is finer than t).",
+    note="Trusted: TLC, JSON bridge, driver. Expansion factor bounded (<= 300 / 1100 outputs per TLC request, <= 4^5 per random member).",
+    ref="DESIGN.md section 5 C10"),
+ "C19": dict(
+    technique="TLA+ generator/model MC_Hex (lane counter) model-checked by TLC for the text-form design; generated values replayed on u64_to_hex/hex_to_u64; outputs judged by TLC trace spec Trace_Hex",
+    text="TLC generates the 16-bit lane counter values (other lanes all-zero/all-one; every 16th value quick, all 65,536 per lane thorough) and checks the design of the text form; each value, plus single-bit, boundary, cell-id-shaped and random values, goes through the real functions in lower, upper and zero-padded (16/17/18/20/32 digit) forms and TLC judges canonical form, round trip and parsing clauses.",
+    note="Trusted: TLC, JSON bridge, driver. 2^64 values cannot be enumerated; coverage is the lane structure of the property's quantifier.",
+    ref="DESIGN.md section 5 C19"),
+ "C20": dict(
+    technique="TLA+ closed forms and enumerated tree (A5Cells, MC_Tree ChildrenLaw) model-checked by TLC; real get_num_cells/get_num_children/cell_area/len(cell_to_children) for all resolutions and pairs judged by TLC trace spec Trace_Tree",
+    text="Finite and exhaustive: every r in -1..30 and every resolution pair; counts travel as m*4^e pairs, areas as IEEE-754 fields; TLC judges closed forms, additivity, world-expansion counts (r <= 6 / 8), the sizing rule against real list lengths, strict decrease of cell_area and the 4-ulp product clause.",
+    note="Trusted: TLC, JSON bridge, driver; ulp distance is formed from the IEEE fields of the caller-side product.",
+    ref="DESIGN.md section 5 C20"),
 }
 
 NOT_APPLICABLE = {
